@@ -70,6 +70,25 @@ func runC06(env *lib.Env, rep *lib.Report) {
 		c05Replay(env, rep)
 		return
 	}
+	// the thorough tier first covers the quick tier's bounds completely, then its own until the soft deadline
+	passes := []bool{false}
+	if env.Thorough() {
+		passes = []bool{false, true}
+	}
+	for _, th := range passes {
+		c06Pass(env, rep, r, th)
+		if !rep.Exhaustive {
+			break
+		}
+		if env.Thorough() && !th {
+			rep.Bounds["phase 1 (bounds of the quick tier, explored first)"] = map[string]any{"queries executed (this shard)": r.nQuery, "completed": true}
+		}
+	}
+	rep.Bounds["queries executed (this shard)"] = r.nQuery
+}
+
+// c06Pass runs the enumeration with the quick tier's bounds (deep false) or the thorough tier's (deep true).
+func c06Pass(env *lib.Env, rep *lib.Report, r *queryRunner, deep bool) {
 	kinds := []string{"INNER JOIN", "JOIN", "LEFT JOIN", "RIGHT JOIN"}
 	// ON conditions between the new table (id b) and an earlier one (id a)
 	onConds := func(a, b string, second string) []*qCond {
@@ -118,24 +137,24 @@ func runC06(env *lib.Env, rep *lib.Report) {
 				for _, on1 := range onConds(id(f), id(s), s.table) {
 					one := c06From{joins: []qJoin{{table: f.table, alias: f.alias}, {kind: k1, table: s.table, alias: s.alias, on: on1}}, ids: []string{id(f), id(s)}, names: []string{f.table, s.table}}
 					froms = append(froms, one)
-					if !env.Thorough() && (k1 == "JOIN" || len(on1.atoms) > 1 && on1.ors[0]) {
+					if !deep && (k1 == "JOIN" || len(on1.atoms) > 1 && on1.ors[0]) {
 						continue // the two-join chains use three join spellings and a smaller ON set in the quick tier
 					}
 					for thi, th := range thirds {
 						if id(th) == id(f) || id(th) == id(s) {
 							continue
 						}
-						if !env.Thorough() && thi%2 == 1 {
+						if !deep && thi%2 == 1 {
 							continue
 						}
 						for _, k2 := range kinds {
-							if !env.Thorough() && k2 == "JOIN" {
+							if !deep && k2 == "JOIN" {
 								continue
 							}
 							// the second ON may refer to the first or to the second table
 							for _, base := range []string{id(f), id(s)} {
 								for oi, on2 := range onConds(base, id(th), th.table) {
-									if !env.Thorough() && oi >= 4 {
+									if !deep && oi >= 4 {
 										continue
 									}
 									froms = append(froms, c06From{
@@ -178,11 +197,18 @@ func runC06(env *lib.Env, rep *lib.Report) {
 	for _, rt := range cT {
 		for _, ru := range cU {
 			for vi, rv := range cV {
-				if !env.Thorough() && vi != (len(rt)*3+len(ru)*2+int(fmt.Sprint(rt, ru)[len(fmt.Sprint(rt, ru))/2]))%len(cV) {
+				if !deep && vi != (len(rt)*3+len(ru)*2+int(fmt.Sprint(rt, ru)[len(fmt.Sprint(rt, ru))/2]))%len(cV) {
 					continue // quick tier: one of v's contents per (t,u) pair, rotating
 				}
 				n++
 				if n%env.NShards != env.Shard {
+					continue
+				}
+				if deep && env.Expired() {
+					if rep.Exhaustive {
+						rep.Exhaustive = false
+						rep.Bounds["phase 2 cut by the soft deadline"] = fmt.Sprintf("this shard completed %d of its databases of the thorough tier's bounds", n/env.NShards)
+					}
 					continue
 				}
 				body := func(c *lib.Ctx) {
@@ -274,5 +300,4 @@ func runC06(env *lib.Env, rep *lib.Report) {
 			}
 		}
 	}
-	rep.Bounds["queries executed (this shard)"] = r.nQuery
 }
